@@ -17,7 +17,10 @@
      - bool(re.search) is independent of greediness and of group numbering.
    The regex AST is what translators/regex_to_coq.py emits from CPython's
    re._parser.parse; anything it does not support is [Unrecognised], which
-   matches nothing and makes [recognised] (hence Gen_C10_ok) false. *)
+   matches nothing and makes [recognised] (hence Gen_C10_ok) false.
+   A CUSTOM regex the AST cannot express (back-references, conditionals, lazy
+   quantifiers ...) is a host pattern, [KHost f] below: matched by the host
+   engine, f an arbitrary function of the content in every theorem. *)
 From Coq Require Import String ZArith List Bool.
 Import ListNotations.
 Open Scope Z_scope.
@@ -221,7 +224,15 @@ Definition search (cc : charcls) (r : regex) (s : list Z) : bool := search_from 
    with a level (membrane: ThreatLevel value, innate: severity).  [s_key] is
    the pattern source text (the key of Membrane._learned_patterns); [s_id]
    names the signature in observations. *)
-Inductive sigkind := KSub (p : list Z) | KRx (r : regex).
+(* [KHost f]: a pattern that is handed to the host regex engine and uses
+   constructs OUTSIDE the AST above (numbered / named back-references,
+   conditional groups, lazy quantifiers, scoped flags, look-ahead ...: not
+   regular, so no term of [regex] denotes them).  Its matcher is an ARBITRARY
+   function of the content - and of nothing else: not of the other signatures
+   it is installed with, not of the state.  Theorems quantify over every f;
+   run_case is handed the function as a table recorded from CPython's re on
+   that single pattern (Run.v: tab). *)
+Inductive sigkind := KSub (p : list Z) | KRx (r : regex) | KHost (f : list Z -> bool).
 Record sig := mkSig { s_id : Z; s_key : list Z; s_kind : sigkind; s_level : Z }.
 
 (* ThreatSignature.matches / TLRPattern.matches *)
@@ -229,12 +240,14 @@ Definition sig_matches (cc : charcls) (g : sig) (content : list Z) : bool :=
   match s_kind g with
   | KSub p => infixb (lower cc p) (lower cc content)
   | KRx r => search cc r content
+  | KHost f => f content
   end.
 
+(* the shipped signatures must all be inside the AST: a host pattern is not *)
 Definition sig_recognised (g : sig) : bool :=
-  match s_kind g with KSub _ => true | KRx r => recognised r end.
+  match s_kind g with KSub _ => true | KRx r => recognised r | KHost _ => false end.
 
 Definition sig_edge_free_l (g : sig) : bool :=
-  match s_kind g with KSub _ => true | KRx r => edge_free_l r end.
+  match s_kind g with KSub _ => true | KRx r => edge_free_l r | KHost _ => false end.
 Definition sig_edge_free_r (g : sig) : bool :=
-  match s_kind g with KSub _ => true | KRx r => edge_free_r r end.
+  match s_kind g with KSub _ => true | KRx r => edge_free_r r | KHost _ => false end.
